@@ -48,7 +48,8 @@ LEVEL_TEXT = (
     "ANY size) the model (per-motif equation = the automated equation) equals the specification iterate (per-motif "
     "equation = the exact expectation), by the general C15 identity; C17_model_is_spec / _checked - the same from the "
     "hypothesis that every (motif, focal) equation is exact / from the polynomial identity check motifs_okb (kept, "
-    "independent); C17_bounds - 0 <= value <= 1 for 0 <= phi <= 1; C17_zero - value 0 at "
+    "independent); C17_object_is_spec / C17_wire_model_is_spec - one object queried repeatedly, and the extracted "
+    "reduced-fraction model, return the specification's values for every well-formed network; C17_bounds - 0 <= value <= 1 for 0 <= phi <= 1; C17_zero - value 0 at "
     "phi = 0 for every T >= 1; C17_monotone - 0 <= phi <= phi' <= 1 implies value(phi) <= value(phi') for every T; C17_history - any sequence of queries on one object (evaluator caches persist, _H_tau is "
     "reset) returns what fresh objects return; C17_wire_model - the reduced-fraction executable model equals the "
     "model; C17_check_sound. PARTIAL (C17_full kept as Definition): convergence of the iteration to the fixed point is "
